@@ -500,4 +500,1266 @@ Section Facts.
     unfold verify_membership. cbn [mk_ep ep_key]. rewrite beq_refl.
     apply ep_verifies; auto.
   Qed.
+
+  (** * Paddings of the produced ops *)
+  Lemma has_padding_true io minp maxp suf :
+    minp <= blen (io_prefix io) <= maxp -> blen (io_suffix io) = suf ->
+    has_padding io minp maxp suf = true.
+  Proof.
+    intros A B. unfold has_padding.
+    replace (blen (io_prefix io) <? minp) with false by lia.
+    replace (maxp <? blen (io_prefix io)) with false by lia. lia.
+  Qed.
+
+  Lemma has_padding_long io minp maxp suf :
+    maxp < blen (io_prefix io) -> has_padding io minp maxp suf = false.
+  Proof.
+    intros A. unfold has_padding.
+    destruct (blen (io_prefix io) <? minp); [reflexivity|].
+    replace (maxp <? blen (io_prefix io)) with true by lia. reflexivity.
+  Qed.
+
+  Lemma left_op_blen h s v rh : length rh = 32%nat ->
+    blen (io_prefix (InnerOp (pre3 h s v ++ [32%N]) (32%N :: rh))) = Z.of_nat (vlen h s v) + 1 /\
+    blen (io_suffix (InnerOp (pre3 h s v ++ [32%N]) (32%N :: rh))) = 33.
+  Proof.
+    intros Hr. cbn [io_prefix io_suffix]. unfold blen. rewrite app_length, pre3_len.
+    cbn [length]. rewrite Hr. lia.
+  Qed.
+
+  Lemma right_op_blen h s v lh : length lh = 32%nat ->
+    blen (io_prefix (InnerOp (pre3 h s v ++ [32%N] ++ lh ++ [32%N]) [])) = Z.of_nat (vlen h s v) + 34 /\
+    blen (io_suffix (InnerOp (pre3 h s v ++ [32%N] ++ lh ++ [32%N]) [])) = 0.
+  Proof.
+    intros Hr. cbn [io_prefix io_suffix]. unfold blen. rewrite !app_length, pre3_len.
+    cbn [length]. rewrite Hr. lia.
+  Qed.
+
+  Lemma pad_left h s v rh : (vlen h s v <= 11)%nat -> length rh = 32%nat ->
+    has_padding_for (InnerOp (pre3 h s v ++ [32%N]) (32%N :: rh)) 0 = true.
+  Proof.
+    intros Hl Hr. destruct (left_op_blen h s v rh Hr) as [A B]. pose proof (vlen_bounds h s v).
+    unfold has_padding_for, get_padding. apply has_padding_true; lia.
+  Qed.
+
+  Lemma pad_right h s v lh : (vlen h s v <= 11)%nat -> length lh = 32%nat ->
+    has_padding_for (InnerOp (pre3 h s v ++ [32%N] ++ lh ++ [32%N]) []) 1 = true.
+  Proof.
+    intros Hl Hr. destruct (right_op_blen h s v lh Hr) as [A B]. pose proof (vlen_bounds h s v).
+    unfold has_padding_for, get_padding. apply has_padding_true; lia.
+  Qed.
+
+  Lemma order_left h s v rh : (vlen h s v <= 11)%nat -> length rh = 32%nat ->
+    order_from_padding (InnerOp (pre3 h s v ++ [32%N]) (32%N :: rh)) = Some 0.
+  Proof. intros Hl Hr. unfold order_from_padding. rewrite pad_left; auto. Qed.
+
+  Lemma order_right h s v lh : (vlen h s v <= 11)%nat -> length lh = 32%nat ->
+    order_from_padding (InnerOp (pre3 h s v ++ [32%N] ++ lh ++ [32%N]) []) = Some 1.
+  Proof.
+    intros Hl Hr. unfold order_from_padding. rewrite pad_right; auto.
+    destruct (right_op_blen h s v lh Hr) as [A B]. pose proof (vlen_bounds h s v).
+    replace (has_padding_for _ 0) with false; [reflexivity|].
+    symmetry. unfold has_padding_for, get_padding. apply has_padding_long. lia.
+  Qed.
+
+  Lemma left_right_neq h s v lh rh : length lh = 32%nat ->
+    inner_op_eqb (InnerOp (pre3 h s v ++ [32%N]) (32%N :: rh))
+                 (InnerOp (pre3 h s v ++ [32%N] ++ lh ++ [32%N]) []) = false.
+  Proof.
+    intros Hl. unfold inner_op_eqb. cbn [io_prefix io_suffix].
+    rewrite beq_len_false; [reflexivity|]. rewrite !app_length. cbn [length]. lia.
+  Qed.
+
+  (** * get_by_index and routing *)
+  Lemma gbi_keys_all (P : bytes -> Prop) t : forall j a va,
+    get_by_index t j = Some (a, va) -> keys_all P t -> P a.
+  Proof.
+    induction t as [k0 v0 m0|nk h s m0 l IHl r IHr]; intros j a va G K;
+      cbn [get_by_index keys_all] in *.
+    - destruct (j =? 0); inversion G; subst; exact K.
+    - destruct K as [Kl Kr]. destruct (j <? size l); eauto.
+  Qed.
+
+  Lemma gbi_nth t j : wf t -> 0 <= j ->
+    get_by_index t j = nth_error (elems t) (Z.to_nat j).
+  Proof.
+    intros W Hj. rewrite (get_by_index_spec t j W). replace (j <? 0) with false by lia. reflexivity.
+  Qed.
+
+  Lemma gbi_range t j x : wf t -> get_by_index t j = Some x -> 0 <= j < size t.
+  Proof.
+    intros W G. rewrite (get_by_index_spec t j W) in G. destruct (j <? 0) eqn:E; [discriminate|].
+    assert (N : nth_error (elems t) (Z.to_nat j) <> None) by congruence.
+    apply nth_error_Some in N. rewrite (size_elems t W). lia.
+  Qed.
+
+  Lemma gbi_some t j : wf t -> 0 <= j < size t -> exists a va, get_by_index t j = Some (a, va).
+  Proof.
+    intros W Hj. rewrite (gbi_nth t j W) by lia. rewrite (size_elems t W) in Hj.
+    destruct (nth_error (elems t) (Z.to_nat j)) as [[a va]|] eqn:E; [eauto|].
+    apply nth_error_None in E. lia.
+  Qed.
+
+  Lemma gbi_none t j : wf t -> size t <= j -> get_by_index t j = None.
+  Proof.
+    intros W Hj. pose proof (size_pos t W). rewrite (gbi_nth t j W) by lia.
+    apply nth_error_None. rewrite (size_elems t W) in Hj. lia.
+  Qed.
+
+  Lemma gbi_get t j a va : wf t -> get_by_index t j = Some (a, va) -> get t a = (j, Some va).
+  Proof.
+    intros W G. pose proof (gbi_range t j _ W G) as R. rewrite (gbi_nth t j W) in G by lia.
+    destruct (sorted_nth_rank _ _ _ _ (wf_sorted t W) G) as [A B].
+    rewrite (get_spec t a W), A, B. f_equal. lia.
+  Qed.
+
+  (** * Left-most / right-most / neighbouring paths *)
+  Lemma first_leftmost t : wf t -> bounds t -> forall a va p lf ok,
+    get_by_index t 0 = Some (a, va) -> path_to_leaf ph wv t a = (p, lf, ok) ->
+    is_left_most (convert_inner_ops p) = true.
+  Proof.
+    induction t as [k0 v0 m0|nk h s m0 l IHl r IHr]; intros W B a va p lf ok G E.
+    - cbn [path_to_leaf] in E. inversion E; subst. reflexivity.
+    - cbn [wf] in W. destruct W as (Wl & Wr & Kl & Kr & _).
+      cbn [bounds] in B. destruct B as (_ & _ & _ & _ & Bl & Bbl & Bbr).
+      pose proof (size_pos l Wl) as Sl.
+      cbn [get_by_index] in G. replace (0 <? size l) with true in G by lia.
+      pose proof (gbi_keys_all (fun x => x <b nk) l 0 a va G Kl) as Lt. cbn beta in Lt.
+      cbn [path_to_leaf] in E. replace (blt a nk) with true in E by (symmetry; apply blt_true; exact Lt).
+      destruct (path_to_leaf ph wv l a) as [[p' lf'] ok'] eqn:E'. inversion E; subst p lf ok.
+      rewrite convert_inner_ops_cons. unfold is_left_most. rewrite forallb_app.
+      fold (is_left_most (convert_inner_ops p')). rewrite (IHl Wl Bbl _ _ _ _ _ G E').
+      cbn [forallb]. rewrite conv_left, (pad_left _ _ _ _ Bl (ph_len r)). reflexivity.
+  Qed.
+
+  Lemma last_rightmost t : wf t -> bounds t -> forall a va p lf ok,
+    get_by_index t (size t - 1) = Some (a, va) -> path_to_leaf ph wv t a = (p, lf, ok) ->
+    is_right_most (convert_inner_ops p) = true.
+  Proof.
+    induction t as [k0 v0 m0|nk h s m0 l IHl r IHr]; intros W B a va p lf ok G E.
+    - cbn [path_to_leaf] in E. inversion E; subst. reflexivity.
+    - cbn [wf] in W. destruct W as (Wl & Wr & Kl & Kr & _ & _ & Hs).
+      cbn [bounds] in B. destruct B as (_ & _ & _ & _ & Bl & Bbl & Bbr).
+      pose proof (size_pos l Wl) as Sl. pose proof (size_pos r Wr) as Sr.
+      cbn [get_by_index size] in G. replace (s - 1 <? size l) with false in G by lia.
+      replace (s - 1 - size l) with (size r - 1) in G by lia.
+      pose proof (gbi_keys_all (fun x => nk <=b x) r _ a va G Kr) as Ge. cbn beta in Ge.
+      cbn [path_to_leaf] in E. replace (blt a nk) with false in E by (symmetry; apply blt_false; exact Ge).
+      destruct (path_to_leaf ph wv r a) as [[p' lf'] ok'] eqn:E'. inversion E; subst p lf ok.
+      rewrite convert_inner_ops_cons. unfold is_right_most. rewrite forallb_app.
+      fold (is_right_most (convert_inner_ops p')). rewrite (IHr Wr Bbr _ _ _ _ _ G E').
+      cbn [forallb]. rewrite (conv_right _ _ _ _ (ph_len l)), (pad_right _ _ _ _ Bl (ph_len l)).
+      reflexivity.
+  Qed.
+
+  (** the body of [is_left_neighbor] on root-first lists *)
+  Definition nb_root (l r : list inner_op) : option bool :=
+    match strip_common l r with
+    | None => None
+    | Some (topleft, l', topright, r') =>
+        match order_from_padding topleft, order_from_padding topright with
+        | Some li, Some ri =>
+            if negb (ri =? li + 1) then Some false
+            else if negb (is_right_most (rev l')) then Some false
+            else if negb (is_left_most (rev r')) then Some false
+            else Some true
+        | _, _ => None
+        end
+    end.
+
+  Lemma is_left_neighbor_eq l r : is_left_neighbor l r = nb_root (rev l) (rev r).
+  Proof. reflexivity. Qed.
+
+  Lemma nb_root_same x a b : nb_root (x :: a) (x :: b) = nb_root a b.
+  Proof. unfold nb_root. cbn [strip_common]. unfold inner_op_eqb. rewrite !beq_refl. reflexivity. Qed.
+
+  Lemma rev_convert p : rev (convert_inner_ops p) = map convert_inner_op p.
+  Proof. unfold convert_inner_ops. rewrite map_rev, rev_involutive. reflexivity. Qed.
+
+  Lemma rev_map_convert p : rev (map convert_inner_op p) = convert_inner_ops p.
+  Proof. unfold convert_inner_ops. rewrite map_rev. reflexivity. Qed.
+
+  Lemma neighbor_paths t : wf t -> bounds t -> forall j a va b vb pa lfa oka pb lfb okb,
+    get_by_index t j = Some (a, va) -> get_by_index t (j + 1) = Some (b, vb) ->
+    path_to_leaf ph wv t a = (pa, lfa, oka) -> path_to_leaf ph wv t b = (pb, lfb, okb) ->
+    nb_root (map convert_inner_op pa) (map convert_inner_op pb) = Some true.
+  Proof.
+    induction t as [k0 v0 m0|nk h s m0 l IHl r IHr];
+      intros W B j a va b vb pa lfa oka pb lfb okb Ga Gb Ea Eb.
+    - exfalso. cbn [get_by_index] in Ga, Gb.
+      destruct (j =? 0) eqn:J; [|discriminate]. replace (j + 1 =? 0) with false in Gb by lia.
+      discriminate.
+    - pose proof W as W0. cbn [wf] in W. destruct W as (Wl & Wr & Kl & Kr & _ & _ & Hs).
+      pose proof B as B0. cbn [bounds] in B. destruct B as (_ & _ & _ & _ & Bl & Bbl & Bbr).
+      pose proof (size_pos l Wl) as Sl. pose proof (size_pos r Wr) as Sr.
+      cbn [get_by_index] in Ga, Gb. cbn [path_to_leaf] in Ea, Eb.
+      destruct (j <? size l) eqn:Ja; destruct (j + 1 <? size l) eqn:Jb.
+      + (* both in the left subtree *)
+        pose proof (gbi_keys_all (fun x => x <b nk) l _ a va Ga Kl) as La.
+        pose proof (gbi_keys_all (fun x => x <b nk) l _ b vb Gb Kl) as Lb. cbn beta in La, Lb.
+        replace (blt a nk) with true in Ea by (symmetry; apply blt_true; exact La).
+        replace (blt b nk) with true in Eb by (symmetry; apply blt_true; exact Lb).
+        destruct (path_to_leaf ph wv l a) as [[pa' lfa'] oka'] eqn:Ea'.
+        destruct (path_to_leaf ph wv l b) as [[pb' lfb'] okb'] eqn:Eb'.
+        inversion Ea; subst pa lfa oka. inversion Eb; subst pb lfb okb.
+        cbn [map]. rewrite nb_root_same.
+        apply (IHl Wl Bbl j a va b vb _ _ _ _ _ _ Ga Gb Ea' Eb').
+      + (* a is the last leaf of the left subtree, b the first of the right one *)
+        assert (J : j = size l - 1) by lia. subst j.
+        replace (size l - 1 + 1 - size l) with 0 in Gb by lia.
+        pose proof (gbi_keys_all (fun x => x <b nk) l _ a va Ga Kl) as La.
+        pose proof (gbi_keys_all (fun x => nk <=b x) r _ b vb Gb Kr) as Lb. cbn beta in La, Lb.
+        replace (blt a nk) with true in Ea by (symmetry; apply blt_true; exact La).
+        replace (blt b nk) with false in Eb by (symmetry; apply blt_false; exact Lb).
+        destruct (path_to_leaf ph wv l a) as [[pa' lfa'] oka'] eqn:Ea'.
+        destruct (path_to_leaf ph wv r b) as [[pb' lfb'] okb'] eqn:Eb'.
+        inversion Ea; subst pa lfa oka. inversion Eb; subst pb lfb okb.
+        cbn [map]. rewrite conv_left, (conv_right _ _ _ _ (ph_len l)).
+        unfold nb_root. cbn [strip_common]. rewrite (left_right_neq _ _ _ _ _ (ph_len l)).
+        rewrite (order_left _ _ _ _ Bl (ph_len r)), (order_right _ _ _ _ Bl (ph_len l)).
+        rewrite !rev_map_convert.
+        rewrite (last_rightmost l Wl Bbl _ _ _ _ _ Ga Ea').
+        rewrite (first_leftmost r Wr Bbr _ _ _ _ _ Gb Eb'). reflexivity.
+      + lia.
+      + (* both in the right subtree *)
+        replace (j + 1 - size l) with (j - size l + 1) in Gb by lia.
+        pose proof (gbi_keys_all (fun x => nk <=b x) r _ a va Ga Kr) as La.
+        pose proof (gbi_keys_all (fun x => nk <=b x) r _ b vb Gb Kr) as Lb. cbn beta in La, Lb.
+        replace (blt a nk) with false in Ea by (symmetry; apply blt_false; exact La).
+        replace (blt b nk) with false in Eb by (symmetry; apply blt_false; exact Lb).
+        destruct (path_to_leaf ph wv r a) as [[pa' lfa'] oka'] eqn:Ea'.
+        destruct (path_to_leaf ph wv r b) as [[pb' lfb'] okb'] eqn:Eb'.
+        inversion Ea; subst pa lfa oka. inversion Eb; subst pb lfb okb.
+        cbn [map]. rewrite nb_root_same.
+        apply (IHr Wr Bbr (j - size l) a va b vb _ _ _ _ _ _ Ga Gb Ea' Eb').
+  Qed.
+
+  (** * Bracketing: the leaves at [rank - 1] and [rank] surround an absent key *)
+  Lemma rank_cons k k' v' rest :
+    rank k ((k', v') :: rest) = (if blt k' k then 1 else 0) + rank k rest.
+  Proof. unfold rank. cbn [filter fst]. destruct (blt k' k); cbn [length]; lia. Qed.
+
+  Lemma rank_nonneg k l : 0 <= rank k l.
+  Proof. unfold rank. lia. Qed.
+
+  Lemma rank_le_length k l : rank k l <= Z.of_nat (length l).
+  Proof.
+    unfold rank. induction l as [|x l IH]; cbn [filter length]; [lia|].
+    destruct (blt (fst x) k); cbn [length]; lia.
+  Qed.
+
+  Lemma sorted_bracket l : forall k n a va, sorted l -> assoc k l = None ->
+    nth_error l n = Some (a, va) ->
+    (Z.of_nat n < rank k l -> a <b k) /\ (rank k l <= Z.of_nat n -> k <b a).
+  Proof.
+    induction l as [|[k' v'] rest IH]; intros k n a va S A N.
+    - destruct n; discriminate.
+    - cbn [sorted] in S. destruct S as [F S]. cbn [assoc] in A.
+      destruct (beq k k') eqn:B; [discriminate|]. btests.
+      rewrite rank_cons. pose proof (rank_nonneg k rest) as Rn.
+      destruct (blt k' k) eqn:C; btests.
+      + destruct n as [|n]; cbn [nth_error] in N.
+        * inversion N; subst. split; [auto|lia].
+        * destruct (IH k n a va S A N) as [I1 I2]. split; intros; [apply I1|apply I2]; lia.
+      + assert (K : k <b k') by border.
+        assert (R0 : rank k rest = 0).
+        { apply rank_all_ge. eapply Forall_impl; [|exact F]. intros; border. }
+        rewrite R0. destruct n as [|n]; cbn [nth_error] in N.
+        * inversion N; subst. split; [lia|auto].
+        * split; [lia|]. intros _. apply nth_error_In in N. rewrite Forall_forall in F.
+          specialize (F _ N). cbn [fst] in F. border.
+  Qed.
+
+  (** * 3. Completeness of non-membership proofs *)
+  Definition kv_of (e : existence_proof) : bytes * bytes := (ep_key e, ep_value e).
+  Definition nonempty_kvs (t : node) : Prop :=
+    Forall (fun p => fst p <> [] /\ snd p <> []) (elems t).
+
+  Lemma leaf_info t j : wf t -> nonempty_kvs t -> 0 <= j < size t ->
+    exists a va p m, get_by_index t j = Some (a, va) /\
+      nth_error (elems t) (Z.to_nat j) = Some (a, va) /\
+      path_to_leaf ph wv t a = (p, (a, va, m), true) /\ a <> [] /\ va <> [].
+  Proof.
+    intros W Ne Hj. destruct (gbi_some t j W Hj) as (a & va & G).
+    pose proof (gbi_get t j a va W G) as Gg.
+    destruct (get_path ph t a va ltac:(rewrite Gg; reflexivity)) as (p & m & E).
+    pose proof G as Gn. rewrite (gbi_nth t j W) in Gn by lia.
+    pose proof (nth_error_In _ _ Gn) as I. unfold nonempty_kvs in Ne. rewrite Forall_forall in Ne.
+    destruct (Ne _ I) as [N1 N2]. cbn [fst snd] in N1, N2.
+    exists a, va, p, m. repeat split; auto.
+  Qed.
+
+  Lemma nv_both root k k0 l r :
+    verify_existence H root l (ep_key l) (ep_value l) = true ->
+    verify_existence H root r (ep_key r) (ep_value r) = true ->
+    ep_key l <b k -> k <b ep_key r ->
+    is_left_neighbor (ep_path l) (ep_path r) = Some true ->
+    verify_nonmembership_x H root (PNonexist (NonExistenceProof k0 (Some l) (Some r))) k = Some true.
+  Proof.
+    intros Vl Vr Ll Lr Nb. apply blt_true in Ll. apply blt_true in Lr.
+    unfold verify_nonmembership_x, nonexist_verify. cbn [np_left np_right].
+    rewrite Ll, Lr, Vl, Vr. cbn [andb negb]. exact Nb.
+  Qed.
+
+  Lemma nv_right_only root k k0 r :
+    verify_existence H root r (ep_key r) (ep_value r) = true ->
+    k <b ep_key r -> is_left_most (ep_path r) = true ->
+    verify_nonmembership_x H root (PNonexist (NonExistenceProof k0 None (Some r))) k = Some true.
+  Proof.
+    intros Vr Lr Nb. apply blt_true in Lr.
+    unfold verify_nonmembership_x, nonexist_verify. cbn [np_left np_right].
+    rewrite Lr, Vr. cbn [andb negb]. rewrite Nb. reflexivity.
+  Qed.
+
+  Lemma nv_left_only root k k0 l :
+    verify_existence H root l (ep_key l) (ep_value l) = true ->
+    ep_key l <b k -> is_right_most (ep_path l) = true ->
+    verify_nonmembership_x H root (PNonexist (NonExistenceProof k0 (Some l) None)) k = Some true.
+  Proof.
+    intros Vl Ll Nb. apply blt_true in Ll.
+    unfold verify_nonmembership_x, nonexist_verify. cbn [np_left np_right].
+    rewrite Ll, Vl. cbn [andb negb]. rewrite Nb. reflexivity.
+  Qed.
+
+  Theorem complete_nonmember_pure t k :
+    wf t -> bounds t -> nonempty_kvs t -> snd (get t k) = None ->
+    exists np, get_nonmembership_proof_gen ph wv (Some t) k = Some (PNonexist np) /\
+      np_key np = k /\
+      option_map kv_of (np_left np) =
+        (if 1 <=? rank k (elems t) then nth_error (elems t) (Z.to_nat (rank k (elems t) - 1)) else None) /\
+      option_map kv_of (np_right np) = nth_error (elems t) (Z.to_nat (rank k (elems t))) /\
+      (forall e, np_left np = Some e ->
+         ep_key e <b k /\ create_existence_proof ph wv (Some t) (ep_key e) = Some e /\
+         calculate H e = Some (ph t) /\
+         verify_existence H (ph t) e (ep_key e) (ep_value e) = true) /\
+      (forall e, np_right np = Some e ->
+         k <b ep_key e /\ create_existence_proof ph wv (Some t) (ep_key e) = Some e /\
+         calculate H e = Some (ph t) /\
+         verify_existence H (ph t) e (ep_key e) (ep_value e) = true) /\
+      verify_nonmembership_x H (ph t) (PNonexist np) k = Some true.
+  Proof.
+    intros W B Ne G. pose proof (get_spec t k W) as Gs. rewrite Gs in G. cbn [snd] in G.
+    set (i := rank k (elems t)) in *.
+    assert (Ri : 0 <= i <= size t).
+    { subst i. pose proof (rank_nonneg k (elems t)). pose proof (rank_le_length k (elems t)).
+      rewrite (size_elems t W). lia. }
+    pose proof (size_pos t W) as Sp. pose proof (wf_sorted t W) as Srt.
+    unfold get_nonmembership_proof_gen, get_with_index, get_by_index_o. rewrite Gs, G.
+    (* facts about a present neighbour *)
+    assert (NB : forall j, 0 <= j < size t ->
+      exists a va p m, get_by_index t j = Some (a, va) /\
+        nth_error (elems t) (Z.to_nat j) = Some (a, va) /\
+        path_to_leaf ph wv t a = (p, (a, va, m), true) /\
+        create_existence_proof ph wv (Some t) a = Some (mk_ep p a va m) /\
+        calculate H (mk_ep p a va m) = Some (ph t) /\
+        verify_existence H (ph t) (mk_ep p a va m) a va = true /\
+        (j < i -> a <b k) /\ (i <= j -> k <b a)).
+    { intros j Hj. destruct (leaf_info t j W Ne Hj) as (a & va & p & m & Gj & Nj & Ej & Na & Nva).
+      exists a, va, p, m. split; [exact Gj|]. split; [exact Nj|]. split; [exact Ej|].
+      split; [unfold create_existence_proof; rewrite Ej; reflexivity|].
+      split; [apply (calculate_path _ _ _ _ _ Ej Na Nva)|].
+      split; [apply ep_verifies; auto|].
+      destruct (sorted_bracket _ k _ a va Srt G Nj) as [S1 S2]. fold i in S1, S2.
+      split; intros; [apply S1|apply S2]; lia. }
+    destruct (1 <=? i) eqn:I1.
+    - (* a left neighbour exists *)
+      destruct (NB (i - 1) ltac:(lia)) as (a & va & pa & ma & Ga & Na & Ea & Ca & Cca & Va & La & _).
+      rewrite Ga, Ca.
+      destruct (i <? size t) eqn:I2.
+      + destruct (NB i ltac:(lia)) as (b & vb & pb & mb & Gb & Nb & Eb & Cb & Ccb & Vb & _ & Lb).
+        rewrite Gb, Cb. eexists. split; [reflexivity|]. cbn [np_key np_left np_right option_map].
+        split; [reflexivity|]. split; [symmetry; exact Na|]. split; [symmetry; exact Nb|].
+        split; [intros e Ee; inversion Ee; subst e; cbn [mk_ep ep_key ep_value];
+                repeat split; auto; apply La; lia|].
+        split; [intros e Ee; inversion Ee; subst e; cbn [mk_ep ep_key ep_value];
+                repeat split; auto; apply Lb; lia|].
+        apply nv_both; cbn [mk_ep ep_key ep_value ep_path]; auto; try (apply La; lia); try (apply Lb; lia).
+        rewrite is_left_neighbor_eq, !rev_convert.
+        replace i with (i - 1 + 1) in Gb by lia.
+        eapply (neighbor_paths t W B (i - 1)); eauto.
+      + rewrite (gbi_none t i W ltac:(lia)).
+        eexists. split; [reflexivity|]. cbn [np_key np_left np_right option_map].
+        split; [reflexivity|]. split; [symmetry; exact Na|].
+        split; [symmetry; apply nth_error_None; rewrite (size_elems t W) in *; lia|].
+        split; [intros e Ee; inversion Ee; subst e; cbn [mk_ep ep_key ep_value];
+                repeat split; auto; apply La; lia|].
+        split; [intros e Ee; discriminate|].
+        apply nv_left_only; cbn [mk_ep ep_key ep_value ep_path]; auto; try (apply La; lia).
+        assert (Ei : i - 1 = size t - 1) by lia. rewrite Ei in Ga.
+        eapply last_rightmost; eauto.
+    - (* no left neighbour: the key is below the least key *)
+      assert (I0 : i = 0) by lia.
+      destruct (NB i ltac:(lia)) as (b & vb & pb & mb & Gb & Nb & Eb & Cb & Ccb & Vb & _ & Lb).
+      rewrite Gb, Cb. eexists. split; [reflexivity|]. cbn [np_key np_left np_right option_map].
+      split; [reflexivity|]. split; [reflexivity|]. split; [symmetry; exact Nb|].
+      split; [intros e Ee; discriminate|].
+      split; [intros e Ee; inversion Ee; subst e; cbn [mk_ep ep_key ep_value];
+              repeat split; auto; apply Lb; lia|].
+      apply nv_right_only; cbn [mk_ep ep_key ep_value ep_path]; auto; try (apply Lb; lia).
+      rewrite I0 in Gb. eapply first_leftmost; eauto.
+  Qed.
+  (** * 4. Wrong-kind requests and the empty tree *)
+  Theorem member_absent_none (hf : node -> bytes) t k :
+    snd (get t k) = None -> get_membership_proof_gen hf wv (Some t) k = None.
+  Proof.
+    intros G. unfold get_membership_proof_gen, create_existence_proof.
+    destruct (path_to_leaf hf wv t k) as [[p [[lk lv] m]] ok] eqn:E.
+    pose proof (path_get hf t _ _ _ _ _ _ E) as P. destruct ok; [|reflexivity].
+    destruct P as [_ P]. congruence.
+  Qed.
+
+  Theorem nonmember_present_none (hf : node -> bytes) t k v :
+    snd (get t k) = Some v -> get_nonmembership_proof_gen hf wv (Some t) k = None.
+  Proof.
+    intros G. unfold get_nonmembership_proof_gen, get_with_index.
+    destruct (get t k) as [i o]. cbn [snd] in G. subst. reflexivity.
+  Qed.
+
+  (** On the empty tree [GetMembershipProof] and [GetProof] fail; [GetNonMembershipProof]
+      returns (without error) a proof with no neighbour, which the verifier rejects. *)
+  Theorem empty_tree_errors (hf : node -> bytes) k :
+    get_membership_proof_gen hf wv None k = None /\
+    get_proof_gen hf wv None k = None /\
+    get_nonmembership_proof_gen hf wv None k = Some (PNonexist (NonExistenceProof k None None)) /\
+    forall root k', verify_nonmembership_x H root (PNonexist (NonExistenceProof k None None)) k' = Some false.
+  Proof. repeat split. Qed.
+
+  Theorem get_proof_kind (hf : node -> bytes) t k : wf t ->
+    get_proof_gen hf wv (Some t) k =
+      match snd (get t k) with
+      | Some _ => get_membership_proof_gen hf wv (Some t) k
+      | None => get_nonmembership_proof_gen hf wv (Some t) k
+      end.
+  Proof.
+    intros W. unfold get_proof_gen. rewrite (has_spec t k W), (get_spec t k W). cbn [snd].
+    unfold mem. destruct (assoc k (elems t)); reflexivity.
+  Qed.
+
+  (** * The entry points (sibling hashes = [node_hash]) on hash-consistent trees *)
+  Lemma path_node_hash t : hash_ok H t -> forall k,
+    path_to_leaf (node_hash H wv) wv t k = path_to_leaf ph wv t k.
+  Proof.
+    induction t as [k0 v0 m0|nk h s m0 l IHl r IHr]; intros Hok k; [reflexivity|].
+    destruct (hash_ok_children H _ _ _ _ _ _ Hok) as [Hl Hr]. cbn [path_to_leaf].
+    rewrite (IHl Hl), (IHr Hr), (node_hash_pure H wv l Hl), (node_hash_pure H wv r Hr).
+    reflexivity.
+  Qed.
+
+  Lemma create_node_hash t k : hash_ok H t ->
+    create_existence_proof (node_hash H wv) wv (Some t) k = create_existence_proof ph wv (Some t) k.
+  Proof. intros Hok. unfold create_existence_proof. rewrite (path_node_hash t Hok). reflexivity. Qed.
+
+  Lemma membership_node_hash t k : hash_ok H t ->
+    get_membership_proof H wv (Some t) k = get_membership_proof_gen ph wv (Some t) k.
+  Proof.
+    intros Hok. unfold get_membership_proof, get_membership_proof_gen.
+    rewrite (create_node_hash t k Hok). reflexivity.
+  Qed.
+
+  Lemma nonmembership_node_hash t k : hash_ok H t ->
+    get_nonmembership_proof H wv (Some t) k = get_nonmembership_proof_gen ph wv (Some t) k.
+  Proof.
+    intros Hok. unfold get_nonmembership_proof, get_nonmembership_proof_gen.
+    destruct (get_with_index (Some t) k) as [i o]. destruct o; [reflexivity|].
+    destruct (1 <=? i).
+    - rewrite (create_node_hash t _ Hok).
+      destruct (create_existence_proof ph wv (Some t) _); [|reflexivity].
+      destruct (get_by_index_o (Some t) i) as [[rk rv]|]; [|reflexivity].
+      rewrite (create_node_hash t _ Hok). reflexivity.
+    - destruct (get_by_index_o (Some t) i) as [[rk rv]|]; [|reflexivity].
+      rewrite (create_node_hash t _ Hok). reflexivity.
+  Qed.
+
+  Lemma get_proof_node_hash t k : hash_ok H t ->
+    get_proof H wv (Some t) k = get_proof_gen ph wv (Some t) k.
+  Proof.
+    intros Hok. unfold get_proof, get_proof_gen.
+    fold (get_membership_proof H wv (Some t) k). fold (get_nonmembership_proof H wv (Some t) k).
+    rewrite (membership_node_hash t k Hok), (nonmembership_node_hash t k Hok). reflexivity.
+  Qed.
+
+  (** 2'. completeness of membership proofs, for the code's hashes *)
+  Theorem complete_member t k v :
+    wf t -> hash_ok H t -> bounds t -> snd (get t k) = Some v -> k <> [] -> v <> [] ->
+    exists ep, get_membership_proof H wv (Some t) k = Some (PExist ep) /\
+               get_proof H wv (Some t) k = Some (PExist ep) /\
+               ep_key ep = k /\ ep_value ep = v /\
+               calculate H ep = Some (node_hash H wv t) /\
+               verify_membership H (node_hash H wv t) (PExist ep) k v = true.
+  Proof.
+    intros W Hok B G Hk Hv.
+    destruct (complete_member_pure t k v W B G Hk Hv) as (ep & A1 & A2 & A3 & A4 & A5).
+    exists ep. rewrite (get_proof_node_hash t k Hok), (get_proof_kind ph t k W), G.
+    rewrite (membership_node_hash t k Hok), (node_hash_pure H wv t Hok). repeat split; auto.
+  Qed.
+
+  (** 3'. completeness of non-membership proofs, for the code's hashes *)
+  Theorem complete_nonmember t k :
+    wf t -> hash_ok H t -> bounds t -> nonempty_kvs t -> snd (get t k) = None ->
+    exists np, get_nonmembership_proof H wv (Some t) k = Some (PNonexist np) /\
+      get_proof H wv (Some t) k = Some (PNonexist np) /\
+      np_key np = k /\
+      option_map kv_of (np_left np) =
+        (if 1 <=? rank k (elems t) then nth_error (elems t) (Z.to_nat (rank k (elems t) - 1)) else None) /\
+      option_map kv_of (np_right np) = nth_error (elems t) (Z.to_nat (rank k (elems t))) /\
+      (forall e, np_left np = Some e ->
+         ep_key e <b k /\ get_membership_proof H wv (Some t) (ep_key e) = Some (PExist e) /\
+         calculate H e = Some (node_hash H wv t)) /\
+      (forall e, np_right np = Some e ->
+         k <b ep_key e /\ get_membership_proof H wv (Some t) (ep_key e) = Some (PExist e) /\
+         calculate H e = Some (node_hash H wv t)) /\
+      verify_nonmembership H (node_hash H wv t) (PNonexist np) k = true.
+  Proof.
+    intros W Hok B Ne G.
+    destruct (complete_nonmember_pure t k W B Ne G) as (np & A1 & A2 & A3 & A4 & A5 & A6 & A7).
+    exists np. rewrite (get_proof_node_hash t k Hok), (get_proof_kind ph t k W), G.
+    rewrite (nonmembership_node_hash t k Hok), (node_hash_pure H wv t Hok).
+    split; [exact A1|]. split; [exact A1|]. split; [exact A2|]. split; [exact A3|].
+    split; [exact A4|].
+    assert (T : forall e, create_existence_proof ph wv (Some t) (ep_key e) = Some e ->
+                get_membership_proof H wv (Some t) (ep_key e) = Some (PExist e)).
+    { intros e Ce. rewrite (membership_node_hash t _ Hok). unfold get_membership_proof_gen.
+      rewrite Ce. reflexivity. }
+    split.
+    { intros e Ee. destruct (A5 e Ee) as (X1 & X2 & X3 & X4). auto. }
+    split.
+    { intros e Ee. destruct (A6 e Ee) as (X1 & X2 & X3 & X4). auto. }
+    unfold verify_nonmembership. rewrite A7. reflexivity.
+  Qed.
+
+  (** * 5. Empty keys and values have no verifying proof *)
+  Lemma verify_existence_empty_value root ep k v :
+    ep_value ep = [] -> verify_existence H root ep k v = false.
+  Proof.
+    intros E. unfold verify_existence, calculate. rewrite E.
+    replace (leaf_apply H (ep_leaf ep) (ep_key ep) []) with (@None bytes)
+      by (unfold leaf_apply; destruct (ep_key ep); reflexivity).
+    apply andb_false_r.
+  Qed.
+
+  Lemma verify_existence_empty_key root ep k v :
+    ep_key ep = [] -> verify_existence H root ep k v = false.
+  Proof.
+    intros E. unfold verify_existence, calculate. rewrite E. cbn [leaf_apply]. apply andb_false_r.
+  Qed.
+
+  Theorem empty_value_no_proof root p k : verify_membership H root p k [] = false.
+  Proof.
+    destruct p as [ep|np]; [|reflexivity]. cbn [verify_membership].
+    destruct (beq (ep_key ep) k); [|reflexivity].
+    destruct (beq [] (ep_value ep)) eqn:B.
+    - apply beq_true in B. apply verify_existence_empty_value. auto.
+    - unfold verify_existence. rewrite B. rewrite andb_false_r. reflexivity.
+  Qed.
+
+  Theorem empty_key_no_proof root p v : verify_membership H root p [] v = false.
+  Proof.
+    destruct p as [ep|np]; [|reflexivity]. cbn [verify_membership].
+    destruct (beq (ep_key ep) []) eqn:B; [|reflexivity].
+    apply beq_true in B. apply verify_existence_empty_key. exact B.
+  Qed.
+
+  (** an empty-valued (or empty-keyed) neighbour spoils the non-membership proof as well *)
+  Theorem empty_neighbour_no_proof root np k :
+    (exists l, np_left np = Some l /\ (ep_value l = [] \/ ep_key l = [])) \/
+    (exists r, np_right np = Some r /\ (ep_value r = [] \/ ep_key r = [])) ->
+    verify_nonmembership H root (PNonexist np) k = false.
+  Proof.
+    intros Hn. unfold verify_nonmembership, verify_nonmembership_x.
+    destruct (_ && _); [|reflexivity]. unfold nonexist_verify.
+    destruct Hn as [(l & El & Ev)|(r & Er & Ev)].
+    - rewrite El.
+      replace (verify_existence H root l (ep_key l) (ep_value l)) with false; [reflexivity|].
+      symmetry. destruct Ev; [apply verify_existence_empty_value|apply verify_existence_empty_key]; auto.
+    - rewrite Er. destruct (negb _); [reflexivity|].
+      replace (verify_existence H root r (ep_key r) (ep_value r)) with false; [reflexivity|].
+      symmetry. destruct Ev; [apply verify_existence_empty_value|apply verify_existence_empty_key]; auto.
+  Qed.
+  (** * 6. Soundness of membership proofs (constructive collision form) *)
+
+  (** Go slices have fewer than 2^63 bytes; the length prefix is injective below that. *)
+  Definition klen_ok (k : bytes) : Prop := (N.of_nat (length k) < 2 ^ 63 - 1)%N.
+
+  Fixpoint int64_tree (t : node) : Prop :=
+    match t with
+    | Leaf _ _ m => int64 (eff_ver wv m)
+    | Inner _ h s m l r =>
+        int64 h /\ int64 s /\ int64 (eff_ver wv m) /\ int64_tree l /\ int64_tree r
+    end.
+
+  Lemma bounds_int64_tree t : bounds t -> int64_tree t.
+  Proof.
+    induction t as [k v m|k h s m l IHl r IHr]; cbn [bounds int64_tree]; unfold i63, int64.
+    - lia.
+    - intros (A & B & C & D & E & F & G). repeat split; try lia; auto.
+  Qed.
+
+  (** the input of [H] that gives the hash of a node *)
+  Definition node_preimage (t : node) : bytes :=
+    match t with
+    | Leaf k v m => leaf_preimage H (eff_ver wv m) k v
+    | Inner _ h s m l r => inner_preimage h s (eff_ver wv m) (ph l) (ph r)
+    end.
+
+  Lemma ph_preimage t : ph t = H (node_preimage t).
+  Proof. destruct t; reflexivity. Qed.
+
+  (** all inputs of [H] used when hashing the tree: node pre-images and leaf values *)
+  Fixpoint tree_inputs (t : node) : list bytes :=
+    match t with
+    | Leaf k v m => [node_preimage t; v]
+    | Inner _ _ _ _ l r => node_preimage t :: tree_inputs l ++ tree_inputs r
+    end.
+
+  Lemma node_preimage_in t : In (node_preimage t) (tree_inputs t).
+  Proof. destruct t; left; reflexivity. Qed.
+
+  (** all inputs of [H] used when recomputing the root from a proof *)
+  Fixpoint path_preimages (res : bytes) (path : list inner_op) : list bytes :=
+    match path with
+    | [] => []
+    | io :: rest =>
+        let x := io_prefix io ++ res ++ io_suffix io in x :: path_preimages (H x) rest
+    end.
+
+  Definition leaf_input (ep : existence_proof) : bytes :=
+    lo_prefix (ep_leaf ep) ++ var_proto (ep_key ep) ++ var_proto (H (ep_value ep)).
+
+  Definition proof_inputs (ep : existence_proof) : list bytes :=
+    ep_value ep :: leaf_input ep :: path_preimages (H (leaf_input ep)) (ep_path ep).
+
+  Definition collision_in (A B : list bytes) : Prop :=
+    exists x y, In x A /\ In y B /\ x <> y /\ H x = H y.
+
+  Lemma collision_in_incl A B A' B' :
+    collision_in A B -> incl A A' -> incl B B' -> collision_in A' B'.
+  Proof. intros (x & y & Ix & Iy & N & E) IA IB. exists x, y. auto. Qed.
+
+  (** an explicit search for the collision *)
+  Definition is_collision (xy : bytes * bytes) : bool :=
+    negb (beq (fst xy) (snd xy)) && beq (H (fst xy)) (H (snd xy)).
+  Definition find_collision_in (A B : list bytes) : option (bytes * bytes) :=
+    find is_collision (list_prod A B).
+  Definition find_collision (t : node) (ep : existence_proof) : option (bytes * bytes) :=
+    find_collision_in (proof_inputs ep) (tree_inputs t).
+
+  Lemma is_collision_spec x y : is_collision (x, y) = true <-> x <> y /\ H x = H y.
+  Proof.
+    unfold is_collision. cbn [fst snd]. rewrite andb_true_iff, negb_true_iff, beq_false, beq_true.
+    reflexivity.
+  Qed.
+
+  Lemma find_collision_in_spec A B : collision_in A B ->
+    exists x y, find_collision_in A B = Some (x, y) /\ x <> y /\ H x = H y.
+  Proof.
+    intros (x & y & Ix & Iy & N & E). unfold find_collision_in.
+    destruct (find is_collision (list_prod A B)) as [[x' y']|] eqn:F.
+    - apply find_some in F. destruct F as [_ F]. apply is_collision_spec in F.
+      exists x', y'. split; [reflexivity|exact F].
+    - exfalso. pose proof (find_none _ _ F (x, y) (in_prod _ _ _ _ Ix Iy)) as C.
+      assert (C' : is_collision (x, y) = true) by (apply is_collision_spec; auto).
+      congruence.
+  Qed.
+
+  Lemma path_preimages_snoc a : forall c op c', length c = 32%nat ->
+    apply_path H c a = Some c' ->
+    path_preimages c (a ++ [op]) = path_preimages c a ++ [io_prefix op ++ c' ++ io_suffix op].
+  Proof.
+    induction a as [|x a IH]; intros c op c' L E.
+    - cbn [apply_path] in E. inversion E; subst. reflexivity.
+    - rewrite (step_32 _ _ _ L) in E. cbn [app path_preimages]. f_equal.
+      apply IH; [apply Hlen|exact E].
+  Qed.
+
+  Lemma inner_checks_forall path : forall b, 1 <= b -> inner_checks path b = true ->
+    Forall (fun io => exists b', 1 <= b' /\ inner_check_against_spec io b' = true) path.
+  Proof.
+    induction path as [|io rest IH]; intros b Hb C; [constructor|].
+    cbn [inner_checks] in C. apply andb_prop in C. destruct C as [C1 C2].
+    constructor; [exists b; auto|]. apply (IH (b + 1)); [lia|exact C2].
+  Qed.
+
+  Lemma is_prefix_0 (p : bytes) : is_prefix [0%N] p = true -> exists p', p = 0%N :: p'.
+  Proof.
+    destruct p as [|b p']; cbn [is_prefix]; [discriminate|]. rewrite andb_true_r.
+    intros E. apply N.eqb_eq in E. subst. eauto.
+  Qed.
+
+  Lemma is_prefix_not0 (p : bytes) : is_prefix [0%N] p = false -> p <> [] ->
+    exists b p', p = b :: p' /\ b <> 0%N.
+  Proof.
+    destruct p as [|b p']; cbn [is_prefix]; [intros _ C; contradiction|]. rewrite andb_true_r.
+    intros E _. apply N.eqb_neq in E. exists b, p'. split; [reflexivity|]. intros ->. apply E. reflexivity.
+  Qed.
+
+  Lemma bytes_enc_inj_prefix k k' x y : klen_ok k -> klen_ok k' ->
+    bytes_enc k ++ x = bytes_enc k' ++ y -> k = k' /\ x = y.
+  Proof.
+    intros Lk Lk' E. pose proof (bytes_roundtrip k x Lk) as R1.
+    pose proof (bytes_roundtrip k' y Lk') as R2. rewrite E, R2 in R1.
+    inversion R1; subst. split; [reflexivity|]. apply app_inv_head in E. exact E.
+  Qed.
+
+  Lemma in_elems_get t k v : wf t -> In (k, v) (elems t) -> snd (get t k) = Some v.
+  Proof.
+    intros W I. apply In_nth_error in I. destruct I as [n I].
+    destruct (sorted_nth_rank _ _ _ _ (wf_sorted t W) I) as [A _].
+    rewrite (get_spec t k W). exact A.
+  Qed.
+
+  (** the direction taken by an op (suffix present = the sibling is on the right = the
+      child is the left one) and the leaf index reached by a root-first list of ops *)
+  Definition goes_right (io : inner_op) : bool :=
+    match io_suffix io with [] => true | _ :: _ => false end.
+
+  Fixpoint walk (t : node) (rops : list inner_op) : option Z :=
+    match t, rops with
+    | Leaf _ _ _, [] => Some 0
+    | Inner _ _ _ _ l r, op :: rest =>
+        if goes_right op then option_map (Z.add (size l)) (walk r rest) else walk l rest
+    | _, _ => None
+    end.
+
+  Section Core.
+    Variables (lp k v : bytes).
+    Hypothesis Lchk : leaf_check_against_spec (LeafOp lp) = true.
+    Hypothesis Kok : klen_ok k.
+    Let li := lp ++ var_proto k ++ var_proto (H v).
+
+    Lemma sound_core : forall rops t,
+      wf t -> int64_tree t -> Forall (fun p => klen_ok (fst p)) (elems t) ->
+      Forall (fun io => exists b, 1 <= b /\ inner_check_against_spec io b = true) rops ->
+      apply_path H (H li) (rev rops) = Some (ph t) ->
+      (exists j, walk t rops = Some j /\ get_by_index t j = Some (k, v)) \/
+      collision_in (v :: li :: path_preimages (H li) (rev rops)) (tree_inputs t).
+    Proof.
+      unfold leaf_check_against_spec in Lchk. cbn [lo_prefix] in Lchk.
+      apply andb_prop in Lchk. destruct Lchk as [Lv Lz].
+      destruct (validate_inv lp 0 Lv) as (n0 & Hn0 & Ln0). cbn in Ln0.
+      destruct (is_prefix_0 lp Lz) as (lp' & Elp).
+      induction rops as [|op rops IH]; intros t W I64 Kt Fo Ap.
+      - (* the leaf op alone reaches the root *)
+        cbn [rev apply_path] in Ap. inversion Ap as [Hh]. rewrite ph_preimage in Hh.
+        destruct (beq li (node_preimage t)) eqn:Bq; btests.
+        2:{ right. exists li, (node_preimage t). cbn [rev path_preimages].
+            split; [right; left; reflexivity|]. split; [apply node_preimage_in|]. auto. }
+        destruct t as [k' v' m|nk h s m l r].
+        + cbn [node_preimage] in Bq. unfold leaf_preimage in Bq. subst li.
+          cbn [int64_tree] in I64.
+          pose proof (hdr_len_app lp (var_proto k ++ var_proto (H v)) n0 Hn0) as H1.
+          rewrite Bq in H1.
+          rewrite (hdr_len_enc 0 1 (eff_ver wv m)) in H1 by (unfold int64 in *; lia).
+          inversion H1 as [Hn]. clear H1.
+          rewrite !app_assoc in Bq. rewrite <- !app_assoc in Bq.
+          assert (Bq' : lp ++ (var_proto k ++ var_proto (H v)) =
+                        pre3 0 1 (eff_ver wv m) ++ (bytes_enc k' ++ 32%N :: H v')).
+          { rewrite Bq. unfold pre3. rewrite <- !app_assoc. reflexivity. }
+          destruct (app_eq_len _ _ _ _ Bq') as [_ Tl]; [rewrite pre3_len; lia|].
+          unfold var_proto in Tl.
+          cbn [elems] in Kt. inversion Kt as [|? ? Kk' _]; subst. cbn [fst] in Kk'.
+          destruct (bytes_enc_inj_prefix _ _ _ _ Kok Kk' Tl) as [-> Tl2].
+          unfold bytes_enc in Tl2. rewrite Hlen in Tl2. cbn in Tl2. inversion Tl2 as [Hv].
+          destruct (beq v v') eqn:Bv; btests.
+          * subst. left. exists 0. split; reflexivity.
+          * right. exists v, v'. split; [left; reflexivity|].
+            split; [right; left; reflexivity|]. auto.
+        + exfalso. cbn [node_preimage] in Bq. unfold inner_preimage in Bq. subst li.
+          cbn [wf] in W. destruct W as (Wl & Wr & _ & _ & _ & Hh' & _).
+          pose proof (height_nonneg l Wl). pose proof (height_nonneg r Wr).
+          destruct (varint_first_nonzero h ltac:(lia)) as (b & rest & Eb & Nz).
+          rewrite Elp, Eb in Bq. cbn [app] in Bq. inversion Bq. congruence.
+      - (* the last op produces the root *)
+        cbn [rev] in Ap. rewrite apply_path_app in Ap.
+        destruct (apply_path H (H li) (rev rops)) as [c|] eqn:Ec; [|discriminate].
+        pose proof (apply_path_len _ _ _ (Hlen li) Ec) as Lc.
+        rewrite (step_32 _ _ _ Lc) in Ap. cbn [apply_path] in Ap. inversion Ap as [Hh].
+        rewrite ph_preimage in Hh.
+        cbn [rev]. rewrite (path_preimages_snoc _ _ op _ (Hlen li) Ec).
+        set (X := io_prefix op ++ c ++ io_suffix op) in *.
+        inversion Fo as [|? ? (b & Hb & Chk) Fo']; subst.
+        destruct (beq X (node_preimage t)) eqn:Bq; btests.
+        2:{ right. exists X, (node_preimage t).
+            split; [right; right; apply in_or_app; right; left; reflexivity|].
+            split; [apply node_preimage_in|]. auto. }
+        unfold inner_check_against_spec in Chk.
+        apply andb_prop in Chk. destruct Chk as [Chk _].
+        apply andb_prop in Chk. destruct Chk as [Chk _].
+        apply andb_prop in Chk. destruct Chk as [Chk _].
+        apply andb_prop in Chk. destruct Chk as [Cv Cz]. apply negb_true_iff in Cz.
+        destruct (validate_inv _ _ Cv) as (n & Hn & Ln).
+        replace (b =? 0) with false in Ln by lia.
+        pose proof (hdr_len_le _ _ Hn) as Lnp.
+        destruct t as [k' v' m|nk h s m l r].
+        + exfalso. cbn [node_preimage] in Bq. unfold leaf_preimage in Bq.
+          destruct (is_prefix_not0 _ Cz) as (b0 & p' & Ep & Nz).
+          { intros E0. rewrite E0 in Lnp. cbn in Lnp. lia. }
+          subst X. rewrite Ep, varint_enc_0 in Bq. cbn [app] in Bq. inversion Bq. congruence.
+        + cbn [node_preimage] in Bq. unfold inner_preimage in Bq.
+          cbn [int64_tree] in I64. destruct I64 as (Ih & Is & Iv & Il & Ir).
+          cbn [wf] in W. destruct W as (Wl & Wr & _).
+          cbn [elems] in Kt. apply Forall_app in Kt. destruct Kt as [Ktl Ktr].
+          pose proof (hdr_len_app _ (c ++ io_suffix op) n Hn) as H1. fold X in H1.
+          rewrite Bq in H1. rewrite (hdr_len_enc h s (eff_ver wv m) _ Ih Is Iv) in H1.
+          inversion H1 as [Hn']. clear H1.
+          assert (Bq' : firstn n (io_prefix op) ++ (skipn n (io_prefix op) ++ c ++ io_suffix op) =
+                        pre3 h s (eff_ver wv m) ++ ((32%N :: ph l) ++ 32%N :: ph r)).
+          { rewrite app_assoc, firstn_skipn. fold X. rewrite Bq. unfold pre3.
+            rewrite <- !app_assoc. reflexivity. }
+          destruct (app_eq_len _ _ _ _ Bq') as [_ Tl].
+          { rewrite pre3_len, firstn_length. lia. }
+          assert (Lq : length (skipn n (io_prefix op)) = 1%nat \/
+                       length (skipn n (io_prefix op)) = 34%nat).
+          { rewrite skipn_length. lia. }
+          set (q := skipn n (io_prefix op)) in *.
+          assert (Sub : (c = ph l /\ goes_right op = false) \/ (c = ph r /\ goes_right op = true)).
+          { destruct Lq as [Lq|Lq].
+            - left. destruct q as [|x [|y q']]; try discriminate. cbn [app] in Tl.
+              inversion Tl as [[Hx Tl']].
+              destruct (app_eq_len _ _ _ _ Tl') as [Cc Sx]; [rewrite ph_len; exact Lc|].
+              split; [exact Cc|]. unfold goes_right. rewrite Sx. reflexivity.
+            - right.
+              assert (Tl' : q ++ (c ++ io_suffix op) = (32%N :: ph l ++ [32%N]) ++ (ph r ++ [])).
+              { rewrite Tl. cbn [app]. rewrite <- !app_assoc. cbn [app]. rewrite app_nil_r. reflexivity. }
+              destruct (app_eq_len _ _ _ _ Tl') as [_ Tl2].
+              { cbn [length]. rewrite app_length, ph_len. cbn [length]. lia. }
+              destruct (app_eq_len _ _ _ _ Tl2) as [Cc Sx]; [rewrite ph_len; exact Lc|].
+              split; [exact Cc|]. unfold goes_right. rewrite Sx. reflexivity. }
+          destruct Sub as [[Sub Dir]|[Sub Dir]]; subst c.
+          * destruct (IH l Wl Il Ktl Fo' eq_refl) as [(j & Wj & Gj)|Col].
+            -- left. exists j. cbn [walk get_by_index]. rewrite Dir. split; [exact Wj|].
+               pose proof (gbi_range l j _ Wl Gj). replace (j <? size l) with true by lia. exact Gj.
+            -- right. eapply collision_in_incl; [exact Col| |].
+               ++ intros z Iz. destruct Iz as [<-|[<-|Iz]]; [left; reflexivity|right; left; reflexivity|].
+                  right. right. apply in_or_app. left. exact Iz.
+               ++ intros z Iz. cbn [tree_inputs]. right. apply in_or_app. left. exact Iz.
+          * destruct (IH r Wr Ir Ktr Fo' eq_refl) as [(j & Wj & Gj)|Col].
+            -- left. exists (size l + j). cbn [walk get_by_index]. rewrite Dir, Wj.
+               split; [reflexivity|].
+               pose proof (gbi_range r j _ Wr Gj). replace (size l + j <? size l) with false by lia.
+               replace (size l + j - size l) with j by lia. exact Gj.
+            -- right. eapply collision_in_incl; [exact Col| |].
+               ++ intros z Iz. destruct Iz as [<-|[<-|Iz]]; [left; reflexivity|right; left; reflexivity|].
+                  right. right. apply in_or_app. left. exact Iz.
+               ++ intros z Iz. cbn [tree_inputs]. right. apply in_or_app. right. exact Iz.
+    Qed.
+  End Core.
+
+  Definition keys_len_ok (t : node) : Prop := Forall (fun p => klen_ok (fst p)) (elems t).
+
+  (** An existence proof accepted against the root hash of [t] walks a real path of [t] down
+      to a leaf carrying the claimed key and value, or exhibits a collision. *)
+  Lemma sound_existence t ep k v :
+    wf t -> int64_tree t -> keys_len_ok t -> klen_ok k ->
+    verify_existence H (ph t) ep k v = true ->
+    ep_key ep = k /\ ep_value ep = v /\
+    ((exists j, walk t (rev (ep_path ep)) = Some j /\ get_by_index t j = Some (k, v)) \/
+     collision_in (proof_inputs ep) (tree_inputs t)).
+  Proof.
+    intros W I64 Kt Kk V. unfold verify_existence in V.
+    apply andb_prop in V. destruct V as [V Vc].
+    apply andb_prop in V. destruct V as [V Vv].
+    apply andb_prop in V. destruct V as [Vs Vk]. btests.
+    unfold check_against_spec in Vs.
+    apply andb_prop in Vs. destruct Vs as [Vs Vp].
+    apply andb_prop in Vs. destruct Vs as [Vl _].
+    destruct (calculate H ep) as [c|] eqn:Ec; [|discriminate]. btests. subst c.
+    split; [auto|]. split; [auto|].
+    unfold calculate in Ec.
+    destruct (leaf_apply H (ep_leaf ep) (ep_key ep) (ep_value ep)) as [c0|] eqn:El; [|discriminate].
+    unfold leaf_apply in El. destruct (ep_key ep) as [|kb kr] eqn:Ek; [discriminate|].
+    destruct (ep_value ep) as [|vb vr] eqn:Ev; [discriminate|].
+    inversion El; subst c0. clear El. rewrite <- Ek, <- Ev in Ec.
+    assert (Lc : leaf_check_against_spec (LeafOp (lo_prefix (ep_leaf ep))) = true).
+    { destruct (ep_leaf ep). exact Vl. }
+    rewrite <- (rev_involutive (ep_path ep)) in Ec.
+    assert (Fo : Forall (fun io => exists b, 1 <= b /\ inner_check_against_spec io b = true)
+                        (rev (ep_path ep))).
+    { apply Forall_rev. apply (inner_checks_forall _ 1); [lia|exact Vp]. }
+    assert (Kk' : klen_ok (ep_key ep)) by (rewrite Ek, <- Vk; exact Kk).
+    destruct (sound_core _ _ _ Lc Kk' _ t W I64 Kt Fo Ec) as [(j & Wj & Gj)|C].
+    - left. exists j. split; [exact Wj|]. rewrite Ek, <- Vk, Ev, <- Vv in Gj. exact Gj.
+    - right. rewrite rev_involutive in C. exact C.
+  Qed.
+
+  (** Any membership proof that the ICS-23 verifier accepts against the root hash of [t]
+      states a true membership of [t], or two different inputs with the same hash occur
+      among the inputs hashed by the verifier and those hashed by the tree. *)
+  Theorem sound_member_in t p k v :
+    wf t -> int64_tree t -> keys_len_ok t -> klen_ok k ->
+    verify_membership H (ph t) p k v = true ->
+    snd (get t k) = Some v \/
+    exists ep, p = PExist ep /\ collision_in (proof_inputs ep) (tree_inputs t).
+  Proof.
+    intros W I64 Kt Kk V. destruct p as [ep|np]; [|discriminate]. cbn [verify_membership] in V.
+    destruct (beq (ep_key ep) k) eqn:Bk; [|discriminate].
+    destruct (sound_existence t ep k v W I64 Kt Kk V) as (_ & _ & [(j & _ & Gj)|C]).
+    - left. rewrite (gbi_get t j k v W Gj). reflexivity.
+    - right. exists ep. auto.
+  Qed.
+
+  (** the same with the collision given by the search function [find_collision] *)
+  Theorem sound_member t p k v :
+    wf t -> int64_tree t -> keys_len_ok t -> klen_ok k ->
+    verify_membership H (ph t) p k v = true ->
+    snd (get t k) = Some v \/
+    exists ep x y, p = PExist ep /\ find_collision t ep = Some (x, y) /\ x <> y /\ H x = H y.
+  Proof.
+    intros W I64 Kt Kk V. destruct (sound_member_in t p k v W I64 Kt Kk V) as [G|(ep & -> & C)].
+    - left. exact G.
+    - right. destruct (find_collision_in_spec _ _ C) as (x & y & F & N & E).
+      exists ep, x, y. auto.
+  Qed.
+
+  (** for the code's root hash *)
+  Corollary sound_member_node_hash t p k v :
+    wf t -> hash_ok H t -> int64_tree t -> keys_len_ok t -> klen_ok k ->
+    verify_membership H (node_hash H wv t) p k v = true ->
+    snd (get t k) = Some v \/
+    exists ep x y, p = PExist ep /\ find_collision t ep = Some (x, y) /\ x <> y /\ H x = H y.
+  Proof. intros W Hok. rewrite (node_hash_pure H wv t Hok). apply sound_member; exact W. Qed.
+
+  (** A proof produced for [k] on [t] is accepted (against whatever root) only for the key
+      [k] and the value stored under [k] in [t]: no hash assumption is needed. *)
+  Theorem produced_only_for_its_claim (hf : node -> bytes) t k p root k' v' :
+    get_membership_proof_gen hf wv (Some t) k = Some p ->
+    verify_membership H root p k' v' = true ->
+    k' = k /\ snd (get t k) = Some v'.
+  Proof.
+    unfold get_membership_proof_gen, create_existence_proof.
+    destruct (path_to_leaf hf wv t k) as [[pa [[lk lv] m]] ok] eqn:E.
+    pose proof (path_get hf t _ _ _ _ _ _ E) as P.
+    destruct ok; [|discriminate]. destruct P as [-> G]. intros Ep; inversion Ep; subst p.
+    cbn [verify_membership ep_key]. destruct (beq k k') eqn:B; [|discriminate]. btests. subst k'.
+    unfold verify_existence. cbn [ep_value]. intros V.
+    apply andb_prop in V. destruct V as [V _]. apply andb_prop in V. destruct V as [_ Vv]. btests.
+    subst. auto.
+  Qed.
+
+  (** ... and against the root of another tree [t'] only if the claim is true there, or a
+      collision is exhibited *)
+  Corollary produced_other_root (hf : node -> bytes) t k p t' v :
+    get_membership_proof_gen hf wv (Some t) k = Some p ->
+    wf t' -> int64_tree t' -> keys_len_ok t' -> klen_ok k ->
+    verify_membership H (ph t') p k v = true ->
+    snd (get t' k) = Some v \/
+    exists ep x y, p = PExist ep /\ find_collision t' ep = Some (x, y) /\ x <> y /\ H x = H y.
+  Proof. intros _. apply sound_member. Qed.
+  (** * 7. Soundness of non-membership proofs (constructive collision form) *)
+
+  Lemma order_from_padding_cases io idx : order_from_padding io = Some idx ->
+    (idx = 0 /\ has_padding_for io 0 = true) \/ (idx = 1 /\ has_padding_for io 1 = true).
+  Proof.
+    unfold order_from_padding. destruct (has_padding_for io 0) eqn:P0.
+    - intros E; inversion E; auto.
+    - destruct (has_padding_for io 1) eqn:P1; [|discriminate]. intros E; inversion E; auto.
+  Qed.
+
+  Lemma has_padding_inv io minp maxp suf : has_padding io minp maxp suf = true ->
+    minp <= blen (io_prefix io) <= maxp /\ blen (io_suffix io) = suf.
+  Proof.
+    unfold has_padding. destruct (blen (io_prefix io) <? minp) eqn:A; [discriminate|].
+    destruct (maxp <? blen (io_prefix io)) eqn:B; [discriminate|]. lia.
+  Qed.
+
+  Lemma pad0_goes_left io : has_padding_for io 0 = true -> goes_right io = false.
+  Proof.
+    unfold has_padding_for, get_padding. intros P. apply has_padding_inv in P. destruct P as [_ P].
+    unfold goes_right. destruct (io_suffix io); [discriminate|reflexivity].
+  Qed.
+
+  Lemma pad1_goes_right io : has_padding_for io 1 = true -> goes_right io = true.
+  Proof.
+    unfold has_padding_for, get_padding. intros P. apply has_padding_inv in P. destruct P as [_ P].
+    unfold goes_right. destruct (io_suffix io) as [|x sx]; [reflexivity|]. rewrite blen_cons in P.
+    pose proof (blen_nonneg sx). lia.
+  Qed.
+
+  Lemma beq_nil_cons (x : N) (r : bytes) : beq [] (x :: r) = false.
+  Proof. reflexivity. Qed.
+
+  (** with [EmptyChild = nil] the placeholder tests never succeed *)
+  Lemma right_branches_are_empty_false io : right_branches_are_empty io = false.
+  Proof.
+    unfold right_branches_are_empty. destruct (order_from_padding io) as [idx|] eqn:O; [|reflexivity].
+    destruct (order_from_padding_cases io idx O) as [[-> P]|[-> P]]; [|reflexivity].
+    unfold has_padding_for, get_padding in P. apply has_padding_inv in P. destruct P as [_ P].
+    cbn [Z.sub Z.eqb Z.mul Z.add Z.opp Z.pos_sub Pos.mul Pos.pred_double]. 
+    replace (blen (io_suffix io) =? 33) with true by lia. cbn [negb].
+    change (zrange 1) with [0]. cbn [forallb]. unfold slice. cbn [Z.mul Z.to_nat skipn].
+    destruct (io_suffix io) as [|x r]; [discriminate|]. reflexivity.
+  Qed.
+
+  Lemma left_branches_are_empty_false io : left_branches_are_empty io = false.
+  Proof.
+    unfold left_branches_are_empty. destruct (order_from_padding io) as [idx|] eqn:O; [|reflexivity].
+    destruct (order_from_padding_cases io idx O) as [[-> P]|[-> P]]; [reflexivity|].
+    unfold has_padding_for, get_padding in P. apply has_padding_inv in P. destruct P as [P _].
+    replace (1 =? 0) with false by reflexivity.
+    destruct (blen (io_prefix io) - 1 * 33 <? 0) eqn:A; [reflexivity|].
+    change (zrange 1) with [0]. cbn [forallb]. rewrite andb_true_r. unfold slice.
+    replace (blen (io_prefix io) - 1 * 33 + 0 * 33) with (blen (io_prefix io) - 33) by lia.
+    assert (L : length (firstn (Z.to_nat 33) (skipn (Z.to_nat (blen (io_prefix io) - 33)) (io_prefix io))) = 33%nat).
+    { rewrite firstn_length, skipn_length. unfold blen in *. lia. }
+    destruct (firstn _ _) as [|x r]; [discriminate|]. reflexivity.
+  Qed.
+
+  Lemma is_left_most_dirs path : is_left_most path = true ->
+    Forall (fun io => goes_right io = false) path.
+  Proof.
+    unfold is_left_most. intros F. rewrite forallb_forall in F. apply Forall_forall. intros io I.
+    specialize (F io I). rewrite left_branches_are_empty_false, orb_false_r in F.
+    apply pad0_goes_left, F.
+  Qed.
+
+  Lemma is_right_most_dirs path : is_right_most path = true ->
+    Forall (fun io => goes_right io = true) path.
+  Proof.
+    unfold is_right_most. intros F. rewrite forallb_forall in F. apply Forall_forall. intros io I.
+    specialize (F io I). rewrite right_branches_are_empty_false, orb_false_r in F.
+    apply pad1_goes_right, F.
+  Qed.
+
+  Lemma walk_all_left t : forall rops j,
+    Forall (fun io => goes_right io = false) rops -> walk t rops = Some j -> j = 0.
+  Proof.
+    induction t as [k0 v0 m0|nk h s m0 l IHl r IHr]; intros rops j F Wk.
+    - destruct rops; cbn [walk] in Wk; [inversion Wk; reflexivity|discriminate].
+    - destruct rops as [|op rest]; cbn [walk] in Wk; [discriminate|].
+      inversion F as [|? ? D F']; subst. rewrite D in Wk. apply (IHl _ _ F' Wk).
+  Qed.
+
+  Lemma walk_all_right t : wf t -> forall rops j,
+    Forall (fun io => goes_right io = true) rops -> walk t rops = Some j -> j = size t - 1.
+  Proof.
+    induction t as [k0 v0 m0|nk h s m0 l IHl r IHr]; intros W rops j F Wk.
+    - destruct rops; cbn [walk] in Wk; [inversion Wk; reflexivity|discriminate].
+    - destruct rops as [|op rest]; cbn [walk] in Wk; [discriminate|].
+      cbn [wf] in W. destruct W as (Wl & Wr & _ & _ & _ & _ & Hs).
+      inversion F as [|? ? D F']; subst. rewrite D in Wk.
+      destruct (walk r rest) as [j'|] eqn:Wr'; [|discriminate]. cbn [option_map] in Wk.
+      inversion Wk; subst. rewrite (IHr Wr _ _ F' Wr'). cbn [size]. lia.
+  Qed.
+
+  Lemma inner_op_eqb_eq a b : inner_op_eqb a b = true -> a = b.
+  Proof.
+    unfold inner_op_eqb. intros E. apply andb_prop in E. destruct E as [E1 E2]. btests.
+    destruct a, b. cbn in *. subst. reflexivity.
+  Qed.
+
+  (** the adjacency argument: paths accepted by [IsLeftNeighbor] end in consecutive leaves *)
+  Lemma neighbor_walks t : wf t -> forall rl rr jl jr,
+    nb_root rl rr = Some true -> walk t rl = Some jl -> walk t rr = Some jr -> jr = jl + 1.
+  Proof.
+    induction t as [k0 v0 m0|nk h s m0 l IHl r IHr]; intros W rl rr jl jr Nb Wl' Wr'.
+    - destruct rl; cbn [walk] in Wl'; [|discriminate]. unfold nb_root in Nb. cbn in Nb. discriminate.
+    - destruct rl as [|x rl]; cbn [walk] in Wl'; [discriminate|].
+      destruct rr as [|y rr]; cbn [walk] in Wr'; [discriminate|].
+      pose proof W as W0. cbn [wf] in W. destruct W as (Wl & Wr & _ & _ & _ & _ & Hs).
+      unfold nb_root in Nb. cbn [strip_common] in Nb.
+      destruct (inner_op_eqb x y) eqn:Exy.
+      + apply inner_op_eqb_eq in Exy. subst y. fold (nb_root rl rr) in Nb.
+        destruct (goes_right x).
+        * destruct (walk r rl) as [a|] eqn:Wa; [|discriminate].
+          destruct (walk r rr) as [b|] eqn:Wb; [|discriminate].
+          cbn [option_map] in Wl', Wr'. inversion Wl'; inversion Wr'; subst.
+          rewrite (IHr Wr _ _ _ _ Nb Wa Wb). lia.
+        * apply (IHl Wl _ _ _ _ Nb Wl' Wr').
+      + destruct (order_from_padding x) as [li|] eqn:Ox; [|discriminate].
+        destruct (order_from_padding y) as [ri|] eqn:Oy; [|discriminate].
+        destruct (negb (ri =? li + 1)) eqn:Step; [discriminate|].
+        destruct (negb (is_right_most (rev rl))) eqn:Rm; [discriminate|].
+        destruct (negb (is_left_most (rev rr))) eqn:Lm; [discriminate|].
+        apply negb_false_iff in Step, Rm, Lm.
+        unfold is_right_most in Rm. rewrite forallb_rev in Rm. fold (is_right_most rl) in Rm.
+        unfold is_left_most in Lm. rewrite forallb_rev in Lm. fold (is_left_most rr) in Lm.
+        destruct (order_from_padding_cases x li Ox) as [[-> Px]|[-> Px]];
+          destruct (order_from_padding_cases y ri Oy) as [[-> Py]|[-> Py]]; try discriminate.
+        rewrite (pad0_goes_left x Px) in Wl'. rewrite (pad1_goes_right y Py) in Wr'.
+        destruct (walk r rr) as [b|] eqn:Wb; [|discriminate]. cbn [option_map] in Wr'.
+        inversion Wr'; subst.
+        rewrite (walk_all_right l Wl _ _ (is_right_most_dirs _ Rm) Wl').
+        rewrite (walk_all_left r _ _ (is_left_most_dirs _ Lm) Wb). lia.
+  Qed.
+
+  (** a key strictly between the leaves [j-1] and [j] of a sorted sequence is absent *)
+  Lemma assoc_none_lt k l : Forall (fun p => k <b fst p) l -> assoc k l = None.
+  Proof.
+    induction l as [|[k' v'] l IH]; intros F; [reflexivity|]. inversion F; subst. cbn [fst] in *.
+    cbn [assoc]. replace (beq k k') with false by (symmetry; apply beq_false; intro; subst; border).
+    apply IH. assumption.
+  Qed.
+
+  Lemma sorted_gap l : forall (j : nat) k, sorted l -> (j <= length l)%nat ->
+    (forall j' a va, j = S j' -> nth_error l j' = Some (a, va) -> a <b k) ->
+    (forall b vb, nth_error l j = Some (b, vb) -> k <b b) ->
+    assoc k l = None.
+  Proof.
+    induction l as [|[k0 v0] rest IH]; intros j k Hs Lj Hl Hr; [reflexivity|].
+    cbn [sorted] in Hs. destruct Hs as [F Hs]. cbn [length] in Lj.
+    destruct j as [|j'].
+    - specialize (Hr k0 v0 eq_refl). apply assoc_none_lt. constructor; [exact Hr|].
+      eapply Forall_impl; [|exact F]. intros p Hp. cbn beta in *. border.
+    - assert (K0 : k0 <b k).
+      { destruct j' as [|j''].
+        - apply (Hl 0%nat k0 v0 eq_refl eq_refl).
+        - destruct (nth_error rest j'') as [[a va]|] eqn:N.
+          + pose proof (Hl (S j'') a va eq_refl N) as A.
+            apply nth_error_In in N. rewrite Forall_forall in F. specialize (F _ N). cbn [fst] in F.
+            border.
+          + apply nth_error_None in N. lia. }
+      cbn [assoc]. replace (beq k k0) with false by (symmetry; apply beq_false; intro; subst; border).
+      apply (IH j' k Hs ltac:(lia)).
+      + intros j'' a va -> N. apply (Hl (S j'') a va eq_refl N).
+      + intros b vb N. apply (Hr b vb N).
+  Qed.
+
+  Definition np_inputs (np : nonexistence_proof) : list bytes :=
+    match np_left np with Some l => proof_inputs l | None => [] end ++
+    match np_right np with Some r => proof_inputs r | None => [] end.
+
+  Definition find_collision_non (t : node) (np : nonexistence_proof) : option (bytes * bytes) :=
+    find_collision_in (np_inputs np) (tree_inputs t).
+
+  Definition sub_key_ok (o : option existence_proof) : Prop :=
+    match o with Some e => klen_ok (ep_key e) | None => True end.
+
+  Theorem sound_nonmember_in t p k :
+    wf t -> int64_tree t -> keys_len_ok t ->
+    (forall np, p = PNonexist np -> sub_key_ok (np_left np) /\ sub_key_ok (np_right np)) ->
+    verify_nonmembership H (ph t) p k = true ->
+    snd (get t k) = None \/
+    exists np, p = PNonexist np /\ collision_in (np_inputs np) (tree_inputs t).
+  Proof.
+    intros W I64 Kt Ks V. unfold verify_nonmembership in V.
+    destruct (verify_nonmembership_x H (ph t) p k) as [b|] eqn:Vx; [|discriminate]. subst b.
+    destruct p as [ep|np]; [discriminate|]. destruct (Ks np eq_refl) as [Ksl Ksr]. clear Ks.
+    cbn [verify_nonmembership_x] in Vx. destruct (_ && _) eqn:LR; [|discriminate]. clear LR.
+    unfold nonexist_verify in Vx. unfold np_inputs.
+    pose proof (wf_sorted t W) as Srt. pose proof (size_elems t W) as Sz.
+    rewrite (get_spec t k W). cbn [snd].
+    destruct (np_left np) as [l|] eqn:El; destruct (np_right np) as [r|] eqn:Er;
+      cbn [sub_key_ok] in Ksl, Ksr.
+    - (* both neighbours *)
+      destruct (verify_existence H (ph t) l (ep_key l) (ep_value l)) eqn:Vl; [|discriminate].
+      destruct (verify_existence H (ph t) r (ep_key r) (ep_value r)) eqn:Vr; [|discriminate].
+      cbn [negb] in Vx.
+      destruct (blt k (ep_key r)) eqn:Br; [|discriminate].
+      destruct (blt (ep_key l) k) eqn:Bl; [|discriminate]. cbn [negb] in Vx. btests.
+      destruct (sound_existence t l _ _ W I64 Kt Ksl Vl) as (_ & _ & [(jl & Wl' & Gl)|C]).
+      2:{ right. exists np. split; [reflexivity|]. eapply collision_in_incl; [exact C| |apply incl_refl].
+          apply incl_appl, incl_refl. }
+      destruct (sound_existence t r _ _ W I64 Kt Ksr Vr) as (_ & _ & [(jr & Wr' & Gr)|C]).
+      2:{ right. exists np. split; [reflexivity|]. eapply collision_in_incl; [exact C| |apply incl_refl].
+          apply incl_appr, incl_refl. }
+      left. rewrite is_left_neighbor_eq in Vx.
+      pose proof (neighbor_walks t W _ _ _ _ Vx Wl' Wr') as Adj. subst jr.
+      pose proof (gbi_range t _ _ W Gl) as Rl. pose proof (gbi_range t _ _ W Gr) as Rr.
+      rewrite (gbi_nth t _ W) in Gl, Gr by lia.
+      apply (sorted_gap _ (Z.to_nat (jl + 1)) k Srt); [lia| |].
+      + intros j' a va Ej N. replace j' with (Z.to_nat jl) in N by lia.
+        rewrite Gl in N. inversion N; subst. exact Bl.
+      + intros b vb N. rewrite Gr in N. inversion N; subst. exact Br.
+    - (* left neighbour only: it must be the last leaf *)
+      destruct (verify_existence H (ph t) l (ep_key l) (ep_value l)) eqn:Vl; [|discriminate].
+      cbn [negb] in Vx.
+      destruct (blt (ep_key l) k) eqn:Bl; [|discriminate]. cbn [negb] in Vx. btests.
+      inversion Vx as [Rm].
+      destruct (sound_existence t l _ _ W I64 Kt Ksl Vl) as (_ & _ & [(jl & Wl' & Gl)|C]).
+      2:{ right. exists np. split; [reflexivity|]. rewrite app_nil_r. exact C. }
+      left. apply is_right_most_dirs in Rm. apply Forall_rev in Rm.
+      pose proof (walk_all_right t W _ _ Rm Wl') as Jl. subst jl.
+      pose proof (gbi_range t _ _ W Gl) as Rl. rewrite (gbi_nth t _ W) in Gl by lia.
+      apply (sorted_gap _ (length (elems t)) k Srt); [lia| |].
+      + intros j' a va Ej N. replace j' with (Z.to_nat (size t - 1)) in N by lia.
+        rewrite Gl in N. inversion N; subst. exact Bl.
+      + intros b vb N. assert (X : nth_error (elems t) (length (elems t)) = None)
+          by (apply nth_error_None; lia). congruence.
+    - (* right neighbour only: it must be the first leaf *)
+      destruct (verify_existence H (ph t) r (ep_key r) (ep_value r)) eqn:Vr; [|discriminate].
+      cbn [negb] in Vx.
+      destruct (blt k (ep_key r)) eqn:Br; [|discriminate]. cbn [negb] in Vx. btests.
+      inversion Vx as [Lm].
+      destruct (sound_existence t r _ _ W I64 Kt Ksr Vr) as (_ & _ & [(jr & Wr' & Gr)|C]).
+      2:{ right. exists np. split; [reflexivity|]. exact C. }
+      left. apply is_left_most_dirs in Lm. apply Forall_rev in Lm.
+      pose proof (walk_all_left t _ _ Lm Wr') as Jr. subst jr.
+      rewrite (gbi_nth t _ W) in Gr by lia.
+      apply (sorted_gap _ 0%nat k Srt); [lia| |].
+      + intros j' a va Ej. discriminate.
+      + intros b vb N. change (Z.to_nat 0) with 0%nat in Gr. rewrite Gr in N.
+        inversion N; subst. exact Br.
+    - discriminate.
+  Qed.
+
+  (** Any non-membership proof accepted against the root hash of [t] states a true absence,
+      or [find_collision_non] returns two different inputs with the same hash. *)
+  Theorem sound_nonmember t p k :
+    wf t -> int64_tree t -> keys_len_ok t ->
+    (forall np, p = PNonexist np -> sub_key_ok (np_left np) /\ sub_key_ok (np_right np)) ->
+    verify_nonmembership H (ph t) p k = true ->
+    snd (get t k) = None \/
+    exists np x y, p = PNonexist np /\ find_collision_non t np = Some (x, y) /\ x <> y /\ H x = H y.
+  Proof.
+    intros W I64 Kt Ks V. destruct (sound_nonmember_in t p k W I64 Kt Ks V) as [G|(np & -> & C)].
+    - left. exact G.
+    - right. destruct (find_collision_in_spec _ _ C) as (x & y & F & N & E).
+      exists np, x, y. auto.
+  Qed.
+
+  Corollary sound_nonmember_node_hash t p k :
+    wf t -> hash_ok H t -> int64_tree t -> keys_len_ok t ->
+    (forall np, p = PNonexist np -> sub_key_ok (np_left np) /\ sub_key_ok (np_right np)) ->
+    verify_nonmembership H (node_hash H wv t) p k = true ->
+    snd (get t k) = None \/
+    exists np x y, p = PNonexist np /\ find_collision_non t np = Some (x, y) /\ x <> y /\ H x = H y.
+  Proof. intros W Hok. rewrite (node_hash_pure H wv t Hok). apply sound_nonmember; exact W. Qed.
 End Facts.
+
+(** * The executable SHA-256 satisfies the length hypothesis *)
+Lemma sha_round_len st kw : length st = 8%nat -> length (Sha256.round st kw) = 8%nat.
+Proof.
+  intros L. do 8 (destruct st as [|? st]; [discriminate|]). destruct st; [|discriminate].
+  reflexivity.
+Qed.
+
+Lemma sha_rounds_len xs : forall st, length st = 8%nat -> length (fold_left Sha256.round xs st) = 8%nat.
+Proof.
+  induction xs as [|x xs IH]; intros st L; [exact L|]. cbn [fold_left]. apply IH, sha_round_len, L.
+Qed.
+
+Lemma sha_compress_len st blk : length st = 8%nat -> length (compress st blk) = 8%nat.
+Proof.
+  intros L. unfold compress. rewrite map_length, combine_length, sha_rounds_len, L; auto.
+Qed.
+
+Lemma sha_blocks_len bs : forall st, length st = 8%nat -> length (fold_left compress bs st) = 8%nat.
+Proof.
+  induction bs as [|b bs IH]; intros st L; [exact L|]. cbn [fold_left]. apply IH, sha_compress_len, L.
+Qed.
+
+Lemma flat_map_words_len ws : length (flat_map bytes_of_word ws) = (4 * length ws)%nat.
+Proof.
+  induction ws as [|w ws IH]; [reflexivity|]. cbn [flat_map length]. rewrite app_length, IH.
+  cbn [bytes_of_word length]. lia.
+Qed.
+
+Theorem sha256_length x : length (sha256 x) = 32%nat.
+Proof.
+  unfold sha256. rewrite flat_map_words_len, sha_blocks_len; reflexivity.
+Qed.
+
+(** * 5'. The finding: a stored empty value has no verifying proof.
+    [complete_member] without the hypothesis [v <> []] is false: *)
+Theorem empty_value_refuted :
+  exists (t : node) (k v : bytes),
+    wf t /\ snd (get t k) = Some v /\ k <> [] /\
+    forall (H : bytes -> bytes) (wv : Z), 0 <= wv < 2 ^ 34 ->
+      hash_ok H t /\ bounds wv t /\
+      exists p, get_membership_proof H wv (Some t) k = Some p /\
+                verify_membership H (node_hash H wv t) p k v = false.
+Proof.
+  exists (Leaf [1%N] [] new_meta), [1%N], [].
+  split; [exact I|]. split; [reflexivity|]. split; [discriminate|].
+  intros H wv Hwv. split; [apply hash_ok_new_leaf|]. split; [cbn; unfold i63; lia|].
+  eexists. split; [reflexivity|]. apply empty_value_no_proof.
+Qed.
